@@ -279,6 +279,12 @@ def run(ctx):
                 k += 1
                 if k % ctx.nshards == ctx.shard:
                     run_input(ctx, shape.replace('{c}', c), 'odd-white-space', tmpdir=tmpdir, nvariants=1)
+        # format-template look-alikes in every payload position (renderers that build their output with str.format / %)
+        for t in workloads.TEMPLATES:
+            for pl in ('{', '}', '{r}', '{0}', '{r, echo=FALSE}', '%s', '%(x)s', '{{', '%', '{.python}'):
+                k += 1
+                if k % ctx.nshards == ctx.shard:
+                    run_input(ctx, t.replace('{p}', pl).replace('{q}', pl) + '\n', 'format-template', tmpdir=tmpdir, nvariants=1)
         # S5 exhaustive small strings
         idx = 0
         for alpha, maxlen, tag in ((ALPHA1, sz['enum_len'], 'enum1'), (ALPHA2, sz['enum2_len'], 'enum2')):
